@@ -101,6 +101,21 @@ def marshal(
         try:
             # send next byte into processor
             event = processor.send(byte)
+        except StopIteration as error:
+            # the processor is done with this very byte (e.g. the padding of a short region in warn mode)
+            size, obj = error.value
+            try:
+                byte = next(buffer_iter)
+            except StopIteration:
+                return obj
+            bytes_remaining = bytes(itertools.chain((byte,), buffer_iter))
+            error = InputStreamSuperfluousBytesError(
+                bytes_remaining=bytes_remaining, command_code=command_code
+            )
+            if abort_on_error:
+                raise error
+            yield WarningEvent(error=error)
+            return obj
         except ConstraintViolatedError as error:
             # TODO code is redundant
             error.set_bytes_remaining(buffer_iter)
